@@ -54,7 +54,7 @@ class EngineDCheck(dst.Check):
                     complete_paths=len(r['complete_paths']), unsupported=r['unsupported'],
                     criticals=r['criticals'][:3], wall=r.get('wall'),
                     empty_program=r.get('empty_program', False), stalled=r.get('stalled', False), looping=r.get('looping', False),
-                    stopped_at_error=r.get('stopped_at_error', False))
+                    stopped_at_error=r.get('stopped_at_error', False), illegal=r.get('illegal', []))
 
     def shrink(self, plan):
         return mcdgen.shrink(plan)
@@ -101,10 +101,20 @@ class EngineDCheck(dst.Check):
             return cls == 'miss_initial_deadlock'
 
         def odpor_multivalued(plan, cls, msg):
-            # odpor with transitions that have several values (MC_random, waitany, testany): loops, crashes, misses
-            return (cls in ('loop_odpor', 'hang_mc_random', 'odpor_count', 'missed_odpor') or cls.startswith('abort_odpor_') or
-                    (cls.startswith('miss_') and '_odpor' in cls)) and 'odpor' in msg and \
-                bool(ops(plan) & {'mc_random', 'wait_any', 'test_any'})
+            # sdpor / odpor with transitions that have several values (MC_random, waitany, testany): the value recorded for
+            # one transition of an actor is applied to another one: loops, crashes, values out of range, missed executions
+            if not (ops(plan) & {'mc_random', 'wait_any', 'test_any'}):
+                return False
+            if cls in ('hang_mc_random', 'odpor_count', 'missed_odpor', 'missed_sdpor') and ('odpor' in msg or 'sdpor' in msg):
+                return True
+            return any(cls.startswith(p + r) for p in ('loop_', 'abort_', 'illegal_value_', 'path_invalid_', 'path_outcome_',
+                                                       'miss_outcome_', 'miss_assert_', 'miss_deadlock_',
+                                                       'miss_outcome_after_assert_', 'miss_assert_after_assert_',
+                                                       'miss_deadlock_after_assert_')
+                       for r in ('odpor', 'sdpor'))
+
+        def after_assert(plan, cls, msg):
+            return cls.startswith('miss_') and '_after_assert_' in cls
 
         def udpor_incomplete(plan, cls, msg):
             return cls in ('miss_outcome_udpor', 'miss_deadlock_udpor', 'miss_assert_udpor', 'missed_udpor') and \
@@ -134,7 +144,8 @@ class EngineDCheck(dst.Check):
                     initial_deadlock=initial_deadlock, odpor_multivalued=odpor_multivalued,
                     udpor_incomplete=udpor_incomplete, udpor_exit_status=udpor_exit_status, maxerr_paths=maxerr_paths,
                     message_queue=message_queue, orphan_async_comm=orphan_async_comm,
-                    befs_after_deadlock=befs_after_deadlock, befs_uniform_multivalued=befs_uniform_multivalued)
+                    befs_after_deadlock=befs_after_deadlock, befs_uniform_multivalued=befs_uniform_multivalued,
+                    after_assert=after_assert)
 
     def signature(self, plan, res):
         return res.get('hash', '')
